@@ -93,15 +93,18 @@ fn run_variant<V: Fv>(ctx: &Ctx, seeds: &[[u8; 32]], table: &Mutex<HashMap<(Stri
 }
 
 /// Every pool seed is generated twice (the two executions land on different worker threads);
-/// returns the pool size and the seeds ordered by decreasing generation time.
+/// returns the pool size and the seeds ordered by decreasing number of candidates drawn.
 fn pool_pass<V: Fv>(ctx: &Ctx, n: usize, table: &Mutex<HashMap<(String, [u8; 32]), Vec<(String, Fp)>>>, rep: &mut Report) -> (usize, Vec<[u8; 32]>) {
     let seeds: Vec<[u8; 32]> = (0..n).map(|i| if i % 3 == 2 { counter_seed(500_000 + ctx.seed * 10_000 + i as u64) } else { seed32(ctx.seed, &format!("c15-pool-{}-{}", V::NAME, i)) }).collect();
     let times: Mutex<Vec<(f64, [u8; 32])>> = Mutex::new(vec![]);
     let r = par_for(2 * n, ncpu(), |job, rep| {
         let s = seeds[job % n];
-        let t0 = std::time::Instant::now();
+        // logical measure of the length of the key search: number of candidate (f,g) pairs
+        // drawn (hook counter, per thread)
+        vh::take_keygen_candidates();
         let r = fingerprint::<V>(s);
-        let dt = t0.elapsed().as_secs_f64();
+        let dt = vh::take_keygen_candidates() as f64;
+        rep.stat_max(&format!("max_keygen_candidates_{}", V::NAME), dt);
         rep.evaluations += 1;
         match r {
             Ok(fp) => {
@@ -139,10 +142,23 @@ pub fn determinism(ctx: &Ctx, rep: &mut Report) {
     let table: Mutex<HashMap<(String, [u8; 32]), Vec<(String, Fp)>>> = Mutex::new(HashMap::new());
     // (0) a larger pool, every seed generated twice by different worker threads; the seeds
     // whose key search took longest (most generator output, most rejected candidates) are then
-    // taken through the heavier contexts below. Wall time is used only to steer, never as an oracle.
+    // taken through the heavier contexts below. The length of a search is the number of candidates drawn (hook counter).
     let (pool512, slow512) = pool_pass::<F512>(ctx, ctx.sz(96, 1200), &table, rep);
     let (pool1024, slow1024) = pool_pass::<F1024>(ctx, ctx.sz(24, 240), &table, rep);
     rep.count("pool_seeds_generated_twice", (pool512 + pool1024) as u64);
+    // the seeds with the longest key searches are where retry budgets, fallbacks and re-keying
+    // logic would act: their complete single-bit neighbourhoods are generated here (the
+    // separate bitflips leg covers randomly chosen base seeds)
+    for s in slow512.iter().take(ctx.sz(1, 6)) {
+        bitflips_v::<F512>(*s, rep);
+        rep.count("bitflip_neighbourhoods_of_slowest_seeds", 1);
+    }
+    if ctx.thorough() {
+        for s in slow1024.iter().take(2) {
+            bitflips_v::<F1024>(*s, rep);
+            rep.count("bitflip_neighbourhoods_of_slowest_seeds", 1);
+        }
+    }
     let mut s512 = seeds_for(ctx, ctx.sz(2, 30));
     s512.extend(slow512.into_iter().take(ctx.sz(4, 12)));
     let mut s1024: Vec<[u8; 32]> = seeds_for(ctx, 0).into_iter().take(1).collect();
